@@ -262,6 +262,84 @@ def posonly_scenarios():
   return out
 
 
+class _Base:
+  def __init__(self, v=0):
+    self.v = v
+
+  @classmethod
+  def make(cls, n=1):
+    return (cls.__name__, n)
+
+  def apply(self, n=1):
+    return (self.v, n)
+
+
+class _Derived(_Base):
+  pass
+
+
+def history_and_callable_scenarios(rng, n):
+  """== ignores the order in which arguments were assigned (also **kwargs names aliasing a shared object),
+  sees every argument of either side, and distinguishes callables that build different things."""
+  import itertools  # pylint: disable=g-import-not-at-top
+  out = []
+  def kw(a=1, b=0, *, d=None, **rest):
+    return (a, b, d, rest)
+  names = ['a', 'b', 'd', 'p', 'q', 'r']
+  for _ in range(n):
+    shared = [rng.randint(1, 3)]
+    binding = {}
+    for nm in rng.sample(names, rng.randint(2, 5)):
+      binding[nm] = rng.choice([shared, shared, [shared[0]], rng.randint(1, 3)])
+    cfgs = []
+    for _ in range(3):
+      order = list(binding)
+      rng.shuffle(order)
+      c = fdl.Config(kw)
+      if rng.random() < 0.5:
+        setattr(c, order[-1], 99)     # history noise: overwritten below
+      for nm in order:
+        setattr(c, nm, binding[nm])
+      cfgs.append((order, c))
+    for (o1, c1), (o2, c2) in itertools.combinations(cfgs, 2):
+      r = safe(lambda: (c1 == c2, c2 == c1))
+      if r != (True, True):
+        out.append(({'clause': 'assignment-order', 'observed': str(r),
+                     'kwargs_names': any(x in ('p', 'q', 'r') for x in binding)},
+                    f'same bindings {sorted(binding)} assigned as {o1} / {o2}: == gave {r}'))
+        break
+    # one side sets a parameter (to a non-default value) that the other leaves unset: never equal
+    order, c = cfgs[0]
+    for extra, val in (('b', 5), ('d', 6), ('r', 7)):
+      if extra in binding:
+        continue
+      c2 = fdl.Config(kw)
+      for nm in order:
+        setattr(c2, nm, binding[nm])
+      setattr(c2, extra, val)
+      r = safe(lambda: (c == c2, c2 == c))
+      if r != (False, False):
+        out.append(({'clause': 'extra-argument-ignored', 'observed': str(r), 'extra': extra},
+                    f'{sorted(binding)} vs the same plus {extra}={val}: == gave {r}'))
+        break
+  # callables: equal ones must compare equal, ones that build different things must not
+  b1, b2 = _Base(2), _Base(3)
+  pairs = [('same-classmethod', fdl.Config(_Base.make, 4), fdl.Config(_Base.make, 4), True),
+           ('inherited-classmethod', fdl.Config(_Base.make, 4), fdl.Config(_Derived.make, 4), False),
+           ('same-bound-method', fdl.Config(b1.apply, 5), fdl.Config(b1.apply, 5), True),
+           ('method-of-two-instances', fdl.Config(b1.apply, 5), fdl.Config(b2.apply, 5), False),
+           ('nested-config-vs-partial', fdl.Config(kw, a=fdl.Config(_Base, v=3)),
+            fdl.Config(kw, a=fdl.Partial(_Base, v=3)), False),
+           ('nested-config-vs-argfactory-in-partial', fdl.Partial(kw, a=fdl.Config(_Base, v=3)),
+            fdl.Partial(kw, a=fdl.ArgFactory(_Base, v=3)), False)]
+  for name, x, y, exp in pairs:
+    r = safe(lambda: (x == y, y == x))
+    if r != (exp, exp):
+      out.append(({'clause': 'callable-or-type-distinction', 'scenario': name, 'observed': str(r)},
+                  f'{name}: == gave {r}, expected {exp} (they build {safe(lambda: fdl.build(x))} / {safe(lambda: fdl.build(y))})'))
+  return out
+
+
 def main():
   v = common.Verdict(PROP, 'model_checking')
   quick = common.tier() == 'quick'
@@ -316,7 +394,8 @@ def main():
       if validate_chains(vneg, [dict(cand, tid=1, xy=False)], os.path.join(wd, 'negtr')):
         raise common.MachineryError('Trace_C06 accepted a wrong verdict')
     accepted = validate_chains(v, recs, os.path.join(wd, 'c2s'))
-    for f, msg in posonly_scenarios():
+    rng_s = random.Random(common.seed() * 40503 + 6)
+    for f, msg in posonly_scenarios() + history_and_callable_scenarios(rng_s, 200 if quick else 2000):
       v.mismatch(f, {'message': msg})
   v.coverage.update({
       'states': res.distinct, 'transitions': res.generated,
